@@ -11,14 +11,25 @@ def bump(d, rel=1e-4):
     return core.to_dec((d[0] * 10.0 ** d[1]) * (1.0 + rel))
 
 
+def bump2(d, rel=1e-11):
+    return core.to_dec2(((d[0] * 10 ** 8 + d[1]) * 10.0 ** d[2]) * (1.0 + rel))
+
+
 def main():
     vdw3 = {'kind': 'vdw', 'src': 'selftest', 'a': 0.3640, 'b': 4.267e-5, 'T': 260.0, 'P': 30.0, 'n': 2.5, 'gas': True}
     vdwL = dict(vdw3, gas=False)
     low = {'kind': 'vdw', 'src': 'selftest', 'a': 0.3640, 'b': 4.267e-5, 'T': 400.0, 'P': 2.0, 'n': 2.5, 'gas': True}
     ideal = {'kind': 'ideal', 'T': 412.0, 'P': 3.5, 'n': 0.7}
     crit = {'kind': 'crit', 'from_critical': [304.1, 73.8], 'n': 2.0}
+    arr = {'kind': 'array', 'eos': 'vdw', 'src': 'selftest', 'a': 0.3640, 'b': 4.267e-5, 'T': [400.0, 650.0],
+           'P': [2.0, 40.0], 'n': [2.5, 0.3], 'gas': False, 'sub': [260.0, 30.0]}
+    forms = {'kind': 'forms', 'src': 'selftest', 'eos': 'vdw', 'a': 0.3640, 'b': 4.267e-5,
+             'A': {'T': 260.0, 'P': 30.0, 'n': 3.0}, 'B': {'T': 412.5, 'P': 3.5, 'n': 0.7}}
+    formsI = {'kind': 'forms', 'src': 'selftest', 'eos': 'ideal',
+              'A': {'T': 260.0, 'P': 30.0, 'n': 3.0}, 'B': {'T': 412.5, 'P': 3.5, 'n': 0.7}}
     base = {}
-    for name, case in (('vdw3', vdw3), ('vdwL', vdwL), ('low', low), ('ideal', ideal), ('crit', crit)):
+    for name, case in (('vdw3', vdw3), ('vdwL', vdwL), ('low', low), ('ideal', ideal), ('crit', crit), ('arr', arr),
+                       ('forms', forms), ('formsI', formsI)):
         evs, det = c20.execute(case)
         base[name] = evs
     assert len(base['vdw3'][0]['roots']) == 3, base['vdw3'][0]['roots']
@@ -46,8 +57,22 @@ def main():
         ('Tc * (1+1e-4)', 'crit', 1, lambda e: e.update(Tc=bump(e['Tc'])), 'CriticalTemperature'),
         ('Vc * (1+1e-4)', 'crit', 1, lambda e: e.update(Vc=bump(e['Vc'])), 'CriticalVolume'),
         ('VmG * 1.01', 'crit', 1, lambda e: e.update(VmG=bump(e['VmG'], 1e-2)), 'CriticalState'),
+        ('array argument reported as modified', 'arr', 0, lambda e: e.update(touched=['get_P:V']), 'InputUntouched'),
+        ('array Tb[2] * (1+1e-4)', 'arr', 0, lambda e: e.update(Tb=[e['Tb'][0], bump(e['Tb'][1])]), 'ArrayRoundTripT'),
+        ('array Vb[1] * (1+1e-4)', 'arr', 0, lambda e: e.update(Vb=[bump(e['Vb'][0]), e['Vb'][1]]), 'ArrayRoundTripV'),
+        ('array element differs from scalar in digit 12', 'arr', 0, lambda e: e['pairs'][3].__setitem__(0, bump2(e['pairs'][3][0])),
+         'ArrayIsMapOfScalar'),
+        ('array result of wrong shape', 'arr', 0, lambda e: e.update(shapes=False), 'ArrayShape'),
+        ('int-argument result differs in digit 12', 'forms', 0, lambda e: e['types'][2].__setitem__(0, bump2(e['types'][2][0])),
+         'ArgumentTypeIrrelevant'),
+        ('positional result differs', 'forms', 0, lambda e: e['posn'][4].__setitem__(0, bump2(e['posn'][4][0])), 'PositionalIsKeyword'),
+        ('default result differs', 'forms', 0, lambda e: e['dflt'][0].__setitem__(0, bump2(e['dflt'][0][0])), 'DefaultIsStandardState'),
+        ('ideal get_T() = 299.15', 'formsI', 0, lambda e: e['std'].__setitem__(2, [29915, -2]), 'DefaultIsStandardState'),
+        ('rebuilt object differs', 'forms', 0, lambda e: e['ctor'][1].__setitem__(0, bump2(e['ctor'][1][0])), 'RebuiltObjectSameAnswers'),
+        ('second call differs', 'forms', 0, lambda e: e['again'][-1].__setitem__(0, bump2(e['again'][-1][0])), 'RepeatableCall'),
+        ('object a changed', 'forms', 0, lambda e: e.update(untouched=False), 'ObjectUntouched'),
     ]
-    traces = [(0, [copy.deepcopy(e) for n in ('vdw3', 'vdwL', 'low', 'ideal', 'crit') for e in base[n]])]
+    traces = [(0, [copy.deepcopy(e) for n in ('vdw3', 'vdwL', 'low', 'ideal', 'crit', 'arr', 'forms', 'formsI') for e in base[n]])]
     for i, (label, b, idx, mut, exp) in enumerate(plans, start=1):
         evs = copy.deepcopy(base[b])
         mut(evs[idx])
